@@ -72,7 +72,7 @@ func (i *Ignore) IsIncluded(path string, index *Index) bool {
 		}
 	}
 	for _, exFile := range i.paths {
-		exRegexp := regexp.MustCompile(exFile)
+		exRegexp := regexp.MustCompile(fmt.Sprintf("(^|/)(?:%s)$", exFile))
 		if exRegexp.MatchString(target) {
 			return true
 		}
